@@ -293,19 +293,27 @@ func H13c() {
 	defs := []string{
 		`typedef t { type int8; } `,
 		`grouping g { leaf gl { type t; } } `,
-		`identity base-id; `,
 		`identity derived { base base-id; } `,
 		`container c { leaf l { type t; } uses g; } `,
-		`leaf r { type identityref { base base-id; } } `,
 		`augment /x:c { leaf al { type t; } } `,
+		`identity base-id; `,
+		`leaf r { type identityref { base base-id; } } `,
 		`container d { uses g; } `,
 	}
 	var part [3]string
 	nested := symBool() // s2 included by s1, or both included by the module
-	for _, d := range defs {
-		part[symChoice(3)] += d
+	// the first `free` definitions are placed freely, the others stay in the module
+	free := param("free")
+	flatBody := ""
+	for i, d := range defs {
+		flatBody += d
+		if i < free {
+			part[symChoice(3)] += d
+		} else {
+			part[0] += d
+		}
 	}
-	flat := `module x { namespace "urn:x"; prefix x; ` + defs[0] + defs[1] + defs[2] + defs[3] + defs[4] + defs[5] + defs[6] + defs[7] + `}`
+	flat := `module x { namespace "urn:x"; prefix x; ` + flatBody + `}`
 	inc := `include s1; include s2; `
 	s1inc := ``
 	if nested {
